@@ -38,6 +38,9 @@ StateChecks(r) ==
     iter_deliv |-> [a |-> r.expanded, c |-> r.expanded => BagOfSeq(r.iter_deliv) = {<<e, 1>> : e \in Deliverable(s.net)}],
     iter_all |-> [a |-> r.expanded, c |-> r.expanded => (~r.iter_all_truncated /\ BagOfSeq(r.iter_all) = AllEnvs(s.net))],
     crash_budget |-> [a |-> sys.max_crashes > 0, c |-> NCrashed(s) <= sys.max_crashes],
+    \* the network value is canonical: a flow that holds no message is not kept (it cannot influence anything, but it
+    \* takes part in Eq/Hash of the real state: a state with such a flow is split from the one without)
+    canonical_net |-> [a |-> s.net.kind = "ordered", c |-> "empty_flows" \in DOMAIN r => r.empty_flows = 0],
     \* C10: representative() = image under the stable sorting permutation of the actor states.
     \* Envelopes addressed to non-existent actors are outside the permutation's domain; the code is
     \* not required to handle them (antecedent false).
